@@ -5,7 +5,45 @@ coq/model/JweCases.v."""
 from __future__ import annotations
 import copy, hashlib, hmac as real_hmac, json as real_json, os, secrets as real_secrets
 import lib
-from lib import c_hex, c_str, c_pv, c_bool, c_list, c_opt, c_exn, exn_class
+from lib import c_bool, c_list, c_opt, c_exn, exn_class, c_Z, c_flt
+
+
+# literals: number literals parse much faster in Coq than string literals
+def c_hex(b: bytes) -> str:
+    return "(hx 0x1%s%%positive)" % bytes(b).hex()
+
+
+def c_str(s: str) -> str:
+    if all(32 <= ord(c) < 127 and c != '"' for c in s):
+        if len(s) <= 12:
+            return '(asc "%s")' % s
+        return c_hex(s.encode("ascii"))
+    return '(hex6 "%s")' % "".join("%06x" % ord(c) for c in s)
+
+
+def c_pv(v) -> str:
+    if v is None:
+        return "PNone"
+    if v is True or v is False:
+        return "(PBool %s)" % c_bool(v)
+    if isinstance(v, int):
+        return "(PInt %s)" % c_Z(v)
+    if isinstance(v, float):
+        return "(PFloat %s)" % c_flt(v)
+    if isinstance(v, str):
+        return "(PStr %s)" % c_str(v)
+    if isinstance(v, (bytes, bytearray)):
+        return "(PBytes %s)" % c_hex(bytes(v))
+    if isinstance(v, (list, tuple)):
+        return "(PList %s)" % c_list([c_pv(x) for x in v])
+    if isinstance(v, dict):
+        items = []
+        for k, x in v.items():
+            if not isinstance(k, str):
+                raise TypeError("c_pv: non-str dict key %r" % (k,))
+            items.append("(%s, %s)" % (c_str(k), c_pv(x)))
+        return "(PDict %s)" % c_list(items)
+    raise TypeError("c_pv: cannot render %r" % (type(v),))
 
 
 # --------------------------------------------------------------------------
@@ -560,13 +598,7 @@ class Keys:
             self.oct_alt[bits] = OctKey.import_key(bytes(rng.randrange(256) for _ in range(bits // 8)))
         if Keys._rsa is None:
             Keys._rsa = RSAKey.generate_key(2048)
-            alt = None
-            p = os.path.join(lib.REPO, "tests", "keys", "RFC7520-RSA-private.json")
-            try:
-                alt = RSAKey.import_key(real_json.load(open(p)))
-            except Exception:
-                alt = RSAKey.generate_key(2048)
-            Keys._rsa_alt = alt
+            Keys._rsa_alt = RSAKey.generate_key(2048)
         self.rsa, self.rsa_alt = Keys._rsa, Keys._rsa_alt
         self.ec = {c: ECKey.generate_key(c) for c in EC_CURVES}
         self.ec_alt = {c: ECKey.generate_key(c) for c in EC_CURVES}
@@ -598,7 +630,17 @@ def registry(verify_all=True, names=None):
     return JWERegistry(algorithms=list(names or ALL_NAMES), verify_all_recipients=verify_all)
 
 
+PREAMBLE = None
+
+
+def preamble():
+    return ("Definition gT := mk_reg (Some %s) true.\nDefinition gF := mk_reg (Some %s) false.\n" % (
+        c_list([c_str(n) for n in ALL_NAMES]), c_list([c_str(n) for n in ALL_NAMES])))
+
+
 def c_registry(verify_all=True, names=None):
+    if names is None:
+        return "gT" if verify_all else "gF"
     return "(mk_reg (Some %s) %s)" % (c_list([c_str(n) for n in (names or ALL_NAMES)]), c_bool(verify_all))
 
 
@@ -794,10 +836,10 @@ def decoded_view(ser, token):
     if rec is None:
         rec = [{k: d[k] for k in ("header", "encrypted_key") if k in d}]
     return ("json", b64d(d["protected"]), b64d(d["iv"]), b64d(d["ciphertext"]), b64d(d["tag"]),
-            b64d(d["aad"]) if "aad" in d else None,
+            b64d(d["aad"]) if "aad" in d else b"",      # an absent aad member is the empty octet sequence
             real_json.dumps(d.get("unprotected"), sort_keys=True),
             tuple((real_json.dumps(r.get("header"), sort_keys=True),
-                   b64d(r["encrypted_key"]) if "encrypted_key" in r else None) for r in rec))
+                   b64d(r["encrypted_key"]) if "encrypted_key" in r else b"") for r in rec))
 
 
 # --------------------------------------------------------------------------
